@@ -234,6 +234,10 @@ def tlc_validate(trace_path, timeout=1800):
 def validate(V, mode, tag=None):
     """runs the suite with the hook on, validates the log with TLC; records a violation with the first rejected event"""
     events, summ = run_suite(tag or V.prop)
+    if not events:
+        # the hook was not reached (e.g. the guarded call sites were moved by a refactoring): nothing to validate, no verdict
+        V.notes["suite_trace"] = dict(summ, events=0, note="no analysis event was recorded; trace validation skipped")
+        return 0
     lines, stats = project(events, mode)
     os.makedirs(os.path.join(C.BUILD, "tmp"), exist_ok=True)
     path = os.path.join(C.BUILD, "tmp", "suite-trace-%s-%d.ndjson" % (V.prop, os.getpid()))
